@@ -91,7 +91,7 @@ Definition op_target (o:op) : objref :=
   | OpAddCons t k => RCons t (k_name k)
   | OpDropCons t _ n => RCons t n
   | OpAddFk t f => RFk t (f_name f)
-  | OpDropFk t n => RFk t n
+  | OpDropFk t n _ => RFk t n
   end.
 Inductive opkind := KCreateTable | KDropTable | KAddColumn | KDropColumn | KAlterNullable | KAlterType | KAlterDefault
                   | KAddIndex | KAddUq | KDropIndex | KDropUq | KAddFk | KDropFk.
@@ -101,7 +101,7 @@ Definition op_has_kind (o:op) (k:opkind) : bool :=
   | OpAlterColumn _ _ _ _ _ (Some _) _ _, KAlterNullable => true
   | OpAlterColumn _ _ _ _ _ _ (Some _) _, KAlterType => true
   | OpAlterColumn _ _ _ _ _ _ _ (Some _), KAlterDefault => true
-  | OpAddFk _ _, KAddFk | OpDropFk _ _, KDropFk => true
+  | OpAddFk _ _, KAddFk | OpDropFk _ _ _, KDropFk => true
   | OpAddCons _ c, KAddIndex => is_ix c
   | OpAddCons _ c, KAddUq => is_uq c
   | OpDropCons _ ix _, KDropIndex => ix
